@@ -276,10 +276,12 @@ def sc_c18(env, spec, v, cfg):
                 env.check(type(c) is type(h), what + ": the copy is an object of the same hybrid class")
                 hread_ok(env, spec, c, cexp, what + ": the copy is equal to the original")
                 nested_on_field(env, spec, c, "in the copy")
-                if where == "same":
+                if c._buffer is h._buffer:
+                    # (where copy() without a target puts the copy is the library's choice: same buffer or a new one)
+                    env.check(where != "other", what + ": the copy lives in the requested buffer")
                     env.check(disjoint_ok(env, (c._xobject._offset, c._xobject._size), (h._xobject._offset, h._xobject._size)), what + ": the copy does not overlap the original")
                 else:
-                    env.check(c._buffer is not h._buffer, what + ": the copy lives in the requested/new buffer")
+                    env.check(where != "same", what + ": the copy lives in the requested buffer")
                 ls = [(p, lt) for p, lt, _ in leaves if lt[0] == "scalar"]
                 if ls:
                     p2, lt2 = ls[0]
